@@ -252,17 +252,22 @@ func (m *API) React(a core.Action) (bool, runtime.Object, error) {
 			c.Result = "Died"
 			panic(crashSentinel{c.Idx})
 		}
-		var obj runtime.Object
+		// "applied": the request is executed and only the answer is lost; if it cannot be executed (e.g. a stale
+		// resourceVersion) nothing was applied and the fault degenerates to the plain one
+		applied := false
 		if f.Applied {
-			obj, _ = m.exec(a, res, c)
+			_, xerr := m.exec(a, res, c)
+			applied = xerr == nil
 		}
 		if f.Die {
-			c.Result = "DiedApplied"
+			c.Result = "Died"
+			if applied {
+				c.Result = "DiedApplied"
+			}
 			panic(crashSentinel{c.Idx})
 		}
-		_ = obj
 		c.Result = f.Kind
-		if f.Applied {
+		if applied {
 			c.Result = f.Kind + "Applied"
 		}
 		return true, nil, faultErr(f.Kind, res, c.Name)
